@@ -13,24 +13,44 @@ var c09canon = c08rsv{symbolic: false}
 
 func c09apiDesc(w c08desc) SegmentationDescriptor {
 	d := CreateSegmentationDescriptor()
+	c09applyDesc(d, w, nil)
+	return d
+}
+
+// c09applyDesc brings d to the logical value w through the setter API. With prev == nil every
+// setter is called (values of absent fields are set to their zero value). With prev != nil (the
+// value d currently holds) only what a caller must do is done: presence flags always, values only
+// for fields that are present in w — stale values of absent fields stay in the object and must
+// not leak into the encoding.
+func c09applyDesc(d SegmentationDescriptor, w c08desc, prev *c08desc) {
+	minimal := prev != nil
 	d.SetEventID(w.eventID)
 	d.SetIsEventCanceled(w.cancel)
+	if minimal && w.cancel {
+		return
+	}
 	d.SetHasProgramSegmentation(w.program)
 	d.SetHasDuration(w.hasDur)
-	d.SetDuration(gots.PTS(w.duration))
-	d.SetIsDeliveryNotRestricted(w.dnr)
-	d.SetIsWebDeliveryAllowed(w.web)
-	d.SetHasNoRegionalBlackout(w.noBlackout)
-	d.SetIsArchiveAllowed(w.archive)
-	d.SetDeviceRestrictions(DeviceRestrictions(w.device))
-	var offs []ComponentOffset
-	for _, k := range w.offsets {
-		o := CreateComponentOffset()
-		o.SetComponentTag(k.tag)
-		o.SetPTSOffset(gots.PTS(k.time))
-		offs = append(offs, o)
+	if !minimal || w.hasDur {
+		d.SetDuration(gots.PTS(w.duration))
 	}
-	d.SetComponents(offs)
+	d.SetIsDeliveryNotRestricted(w.dnr)
+	if !minimal || !w.dnr {
+		d.SetIsWebDeliveryAllowed(w.web)
+		d.SetHasNoRegionalBlackout(w.noBlackout)
+		d.SetIsArchiveAllowed(w.archive)
+		d.SetDeviceRestrictions(DeviceRestrictions(w.device))
+	}
+	if !minimal || !w.program {
+		var offs []ComponentOffset
+		for _, k := range w.offsets {
+			o := CreateComponentOffset()
+			o.SetComponentTag(k.tag)
+			o.SetPTSOffset(gots.PTS(k.time))
+			offs = append(offs, o)
+		}
+		d.SetComponents(offs)
+	}
 	d.SetUPIDType(SegUPIDType(w.upidType))
 	if w.isMID {
 		var mid []UPID
@@ -41,16 +61,19 @@ func c09apiDesc(w c08desc) SegmentationDescriptor {
 			mid = append(mid, e)
 		}
 		d.SetMID(mid)
-	} else {
+	} else if !minimal || len(w.upid) > 0 || (!prev.isMID && !prev.cancel && len(prev.upid) > 0 && w.upidType != 0) {
+		// switching between ordinary UPID types keeps the old UPID (documented: "only one can be
+		// set at a time" clears the other kind only), so an empty new UPID has to be set then
 		d.SetUPID(w.upid)
 	}
 	d.SetTypeID(SegDescType(w.typeID))
 	d.SetSegmentNumber(w.segNum)
 	d.SetSegmentsExpected(w.segExp)
 	d.SetHasSubSegments(w.hasSub)
-	d.SetSubSegmentNumber(w.subNum)
-	d.SetSubSegmentsExpected(w.subExp)
-	return d
+	if !minimal || w.hasSub {
+		d.SetSubSegmentNumber(w.subNum)
+		d.SetSubSegmentsExpected(w.subExp)
+	}
 }
 
 func c09apiCmd(c c08cmd, hasTime bool) SpliceCommand {
@@ -64,20 +87,33 @@ func c09apiCmd(c c08cmd, hasTime bool) SpliceCommand {
 		return t
 	}
 	in := CreateSpliceInsertCommand()
+	c09applyInsert(in, c, hasTime, false)
+	return in
+}
+
+// c09applyInsert brings a splice_insert to the logical value c through the setter API; minimal:
+// flags always, values only for the fields present in c (stale values must not reach the encoding).
+func c09applyInsert(in SpliceInsertCommand, c c08cmd, hasTime bool, minimal bool) {
 	in.SetEventID(c.eventID)
 	in.SetIsEventCanceled(c.cancel)
+	if minimal && c.cancel {
+		return
+	}
 	in.SetIsOut(c.out)
 	in.SetIsProgramSplice(c.program)
 	in.SetSpliceImmediate(c.immediate)
 	in.SetHasPTS(hasTime)
-	in.SetPTS(gots.PTS(c.pts))
+	if !minimal || (c.program && !c.immediate && hasTime) {
+		in.SetPTS(gots.PTS(c.pts))
+	}
 	in.SetHasDuration(c.hasDur)
-	in.SetIsAutoReturn(c.autoReturn)
-	in.SetDuration(gots.PTS(c.duration))
+	if !minimal || c.hasDur {
+		in.SetIsAutoReturn(c.autoReturn)
+		in.SetDuration(gots.PTS(c.duration))
+	}
 	in.SetUniqueProgramId(c.uniqueID)
 	in.SetAvailNum(c.availNum)
 	in.SetAvailsExpected(c.availsExp)
-	return in
 }
 
 // API-reachable command shapes (splice_insert components cannot be set through the API)
@@ -527,5 +563,83 @@ func VH_C09_UPIDSwitch() {
 	vrt.Assert(byte(d.UPIDType()) == w.upidType, "UPIDType getter reflects the last SetUPIDType")
 	vrt.Assert(len(d.MID()) == len(w.mid), "MID getter reflects the final configuration")
 	vrt.Assert(len(d.UPID()) == len(w.upid), "UPID getter reflects the final configuration")
+	vrt.Reach("end")
+}
+
+// Any sequence of setter calls before encoding: a descriptor that already holds one logical value
+// (rich shapes A: every optional part present) is brought to another one (every API shape B) by
+// the calls a user has to make; the encoding and the getters must be those of B alone.
+func VH_C09_DescSwitch() {
+	as := []c08dshape{
+		{ncomp: 2, hasDur: true, upidLen: 2, sub: 0x34},
+		{program: true, hasDur: true, dnr: true, isMID: true, mid: []int{1, 0}, sub: 0x36},
+		{cancel: true},
+	}
+	bs := c09apiDescShapes()
+	ai := vrt.Choose("from", 0, len(as)-1)
+	b := bs[vrt.Choose("to", 0, len(bs)-1)]
+	wa := c08symDesc(as[ai])
+	d := CreateSegmentationDescriptor()
+	c09applyDesc(d, wa, nil)
+	c08sameBytes(d.Data(), c08descBytes(c09canon, wa), "the first value encodes canonically")
+	wb := c08symDesc(b)
+	if as[ai].cancel {
+		// nothing but the event id was ever set: the second value has to be set completely
+		c09applyDesc(d, wb, nil)
+	} else {
+		c09applyDesc(d, wb, &wa)
+	}
+	c08sameBytes(d.Data(), c08descBytes(c09canon, wb), "after further setter calls the descriptor encodes exactly its current logical value")
+	vrt.Assert(d.EventID() == wb.eventID && d.IsEventCanceled() == wb.cancel, "getters reflect the current value (event id, cancel)")
+	if !wb.cancel {
+		vrt.Assert(d.HasDuration() == wb.hasDur && d.HasProgramSegmentation() == wb.program && byte(d.UPIDType()) == wb.upidType, "getters reflect the current value (flags, UPID type)")
+		vrt.Assert(len(d.MID()) == len(wb.mid) && len(d.UPID()) == len(wb.upid), "getters reflect the current value (UPID/MID lengths)")
+		if !wb.program {
+			vrt.Assert(len(d.Components()) == len(wb.offsets), "getters reflect the current value (components)")
+		}
+	}
+	vrt.Reach("end")
+}
+
+// the same for splice commands: a splice_insert (or time_signal) that already holds one value is
+// brought to another shape; its bytes must be those of the current value alone.
+func VH_C09_CmdSwitch() {
+	as := []c08cshape{
+		{kind: 5, program: true, hasDur: true},
+		{kind: 5, immediate: true, hasDur: true, comps: []bool{}},
+		{kind: 5, cancel: true},
+	}
+	var bs []c08cshape
+	for _, b := range c09cmdShapes() {
+		if b.kind == 5 {
+			bs = append(bs, b)
+		}
+	}
+	ai := vrt.Choose("from", 0, len(as)-1)
+	b := bs[vrt.Choose("to", 0, len(bs)-1)]
+	ca := c08symCmd(as[ai])
+	in := CreateSpliceInsertCommand()
+	c09applyInsert(in, ca, true, false)
+	c08sameBytes(in.Data(), c08cmdBytes(c09canon, ca), "the first value encodes canonically")
+	cb := c08symCmd(b)
+	c09applyInsert(in, cb, true, !as[ai].cancel)
+	c08sameBytes(in.Data(), c08cmdBytes(c09canon, cb), "after further setter calls the command encodes exactly its current logical value")
+	vrt.Assert(in.EventID() == cb.eventID && in.IsEventCanceled() == cb.cancel, "getters reflect the current value (event id, cancel)")
+	if !cb.cancel {
+		vrt.Assert(in.IsOut() == cb.out && in.IsProgramSplice() == cb.program && in.HasDuration() == cb.hasDur && in.SpliceImmediate() == cb.immediate, "getters reflect the current flags")
+		vrt.Assert(in.UniqueProgramId() == cb.uniqueID && in.AvailNum() == cb.availNum && in.AvailsExpected() == cb.availsExp, "getters reflect the current ids")
+	}
+	// time_signal: specified -> unspecified -> specified with another time
+	t := CreateTimeSignalCommand()
+	p1, p2 := c08u33("ts.pts1"), c08u33("ts.pts2")
+	t.SetHasPTS(true)
+	t.SetPTS(gots.PTS(p1))
+	c08sameBytes(t.Data(), c08spliceTime(c09canon, true, p1), "time_signal with a time")
+	t.SetHasPTS(false)
+	c08sameBytes(t.Data(), c08spliceTime(c09canon, false, 0), "time_signal after clearing the time: one byte, flag 0")
+	vrt.Assert(!t.HasPTS(), "HasPTS reflects the cleared flag")
+	t.SetHasPTS(true)
+	t.SetPTS(gots.PTS(p2))
+	c08sameBytes(t.Data(), c08spliceTime(c09canon, true, p2), "time_signal with a new time")
 	vrt.Reach("end")
 }
